@@ -55,18 +55,19 @@ def run(ctx):
         "programs": len(progs), "steps_generated": nsteps, "programs_with_a_step_outside_the_model": no_claim, "steps_by_operation": by_op,
         "depths": sorted({len(p["ops"]) for p in progs}),
         "rule": "spec/Fluent.tla!Programs enumerated by TLC: every operation with every parameter (reductions "
-                "sum/prod/min/max/mean/std/reduce(mean)/concatenate/stack/flatten over every dimension, batch sizes 0..n+1, "
+                "sum/prod/min/max/mean/std/reduce(mean)/reduce(first)/concatenate/stack/flatten over every dimension, batch sizes 0..n+1, "
                 "keep_dim both ways, every backend axis; map with one payload and with an array of payloads; scalar and "
                 "action arithmetic; expand/transform at every position, str and Coord forms; select/isel scalar and list, "
                 "drop both ways; join along an existing / a new dimension; broadcast against 4 other actions) on node arrays "
-                "(2),(3),(4),(2,2),(2,3) with and without coordinates holding 3-vectors, plus programs of depth 2"
+                "(2),(3),(4),(2,2),(2,3) with and without coordinates - explicit labels ascending, DESCENDING and SHUFFLED (30,10,20) - "
+                "holding 3-vectors; reduce with an order-sensitive batchable user payload (first argument); plus programs of depth 2"
                 f"{'' if ctx.quick else ' and 3'} with thinned parameters on the inner steps; one evaluation = one executed "
                 "step whose contract TLC evaluates on the logged (receiver, operand, result) denotations; non-trivial = batched, "
                 "keep_dim, second operand or a step after another step",
         "clauses": ["raised", "documented_error_not_raised", "dims", "coords", "values"],
     })
     for p in progs[:1] + progs[len(progs) // 2:len(progs) // 2 + 1] + progs[-1:]:
-        ctx.sample({"src": {k: p["src"][k] for k in ("dims", "shape", "nocoords")},
+        ctx.sample({"src": {k: p["src"][k] for k in ("dims", "shape", "nocoords", "coords")},
                     "ops": [{k: v for k, v in o.items() if k != "other"} for o in p["ops"]]})
     for i, names in sorted(bad.items()):
         p, r = progs[i - 1], results[i - 1]
